@@ -33,6 +33,266 @@ pub fn families(prop: &str, tier: Tier) -> Vec<Cfg> {
             b.max_reqs = 3;
             vec![a, b]
         }
+        "C02" => {
+            // connection death at every I/O call, cancellation, ack orders, resumed reconnects
+            let mut a = Cfg::base("C02-crash-points-and-resume");
+            a.props = vec!["C02"];
+            a.ops = vec![OpK::Pub1, OpK::Pub2, OpK::Sub, OpK::Poll, OpK::DropConn];
+            a.io = IoMenu::faults_only();
+            a.io.write_pending = true;
+            a.io.flush_pending = true;
+            a.cancel = true;
+            a.max_ops = if q { 6 } else { 8 };
+            a.max_conns = if q { 3 } else { 4 };
+            a.max_reqs = if q { 2 } else { 3 };
+            a.dev = if q { 1 } else { 2 };
+            let mut b = Cfg::base("C02-partial-writes-then-death");
+            b.props = vec!["C02"];
+            b.ops = vec![OpK::Pub1, OpK::Poll, OpK::DropConn, OpK::Forget];
+            b.io = IoMenu::full();
+            b.cancel = true;
+            b.max_ops = if q { 5 } else { 7 };
+            b.max_conns = 3;
+            b.max_reqs = if q { 2 } else { 3 };
+            b.dev = 2;
+            vec![a, b]
+        }
+        "C03" => {
+            let mut a = Cfg::base("C03-qos2-orders-and-crashes");
+            a.props = vec!["C03"];
+            a.ops = vec![OpK::Pub2, OpK::Poll, OpK::DropConn];
+            a.io = IoMenu::faults_only();
+            a.io.write_pending = true;
+            a.cancel = true;
+            a.broker.ack_fail = true;
+            a.max_ops = if q { 9 } else { 12 };
+            a.max_conns = if q { 2 } else { 3 };
+            a.max_reqs = if q { 3 } else { 4 };
+            a.dev = if q { 1 } else { 2 };
+            let mut b = Cfg::base("C03-qos2-mixed-with-qos1");
+            b.props = vec!["C03"];
+            b.ops = vec![OpK::Pub2, OpK::Pub1, OpK::Poll, OpK::DropConn];
+            b.io = IoMenu::partial();
+            b.cancel = true;
+            b.max_ops = if q { 6 } else { 8 };
+            b.max_conns = 2;
+            b.max_reqs = 3;
+            b.dev = if q { 1 } else { 2 };
+            vec![a, b]
+        }
+        "C04" => {
+            let mut a = Cfg::base("C04-inbound-qos012-interleaved");
+            a.props = vec!["C04"];
+            a.ops = vec![OpK::Poll, OpK::Pub1, OpK::Drive, OpK::DropConn];
+            a.io = IoMenu::partial();
+            a.io.read_err = true;
+            a.cancel = true;
+            a.broker.script = vec![inpub(2, 1), inpub(1, 65535), inpub(0, 0), inpub(2, 258)];
+            a.broker.dup_retransmit = true;
+            a.broker.stale_acks = true;
+            a.broker.may_lose_session = true;
+            a.max_ops = if q { 6 } else { 8 };
+            a.max_conns = if q { 2 } else { 3 };
+            a.max_reqs = 1;
+            a.dev = if q { 1 } else { 2 };
+            // transmit arena full: acks must still go out
+            let mut b = Cfg::base("C04-arena-full");
+            b.props = vec!["C04"];
+            b.tx = 40;
+            b.payload_sizes = vec![24];
+            b.ops = vec![OpK::Pub1, OpK::Poll, OpK::DropConn];
+            b.io = IoMenu::benign();
+            b.io.write_pending = true;
+            b.cancel = true;
+            b.broker.script = vec![inpub(1, 7), inpub(2, 9)];
+            b.broker.reorder_window = 4;
+            b.max_ops = if q { 7 } else { 9 };
+            b.max_conns = 2;
+            b.max_reqs = 2;
+            b.dev = 1;
+            vec![a, b]
+        }
+        "C05" => {
+            let mut a = Cfg::base("C05-handshake-variants");
+            a.props = vec!["C05"];
+            a.ops = vec![OpK::Pub1, OpK::Pub2, OpK::Sub, OpK::Unsub, OpK::Poll, OpK::DropConn];
+            a.io = IoMenu::faults_only();
+            a.io.write_pending = true;
+            a.io.read_pending = true;
+            a.cancel = true;
+            a.broker.bad_handshake = true;
+            a.broker.may_lose_session = true;
+            a.broker.assigned_id = vec![None, Some("assigned-by-broker")];
+            a.max_ops = if q { 6 } else { 8 };
+            a.max_conns = if q { 3 } else { 4 };
+            a.max_reqs = if q { 2 } else { 3 };
+            a.dev = if q { 1 } else { 2 };
+            vec![a]
+        }
+        "C06" => {
+            let mut v = Vec::new();
+            for (i, rm) in [Some(1u16), Some(2), Some(3)].into_iter().enumerate() {
+                if q && i == 2 {
+                    continue;
+                }
+                let mut a = Cfg::base(match i {
+                    0 => "C06-receive-maximum-1",
+                    1 => "C06-receive-maximum-2",
+                    _ => "C06-receive-maximum-3",
+                });
+                a.props = vec!["C06"];
+                a.ops = vec![OpK::Pub1, OpK::Pub2, OpK::Poll, OpK::DropConn];
+                a.io = IoMenu::benign();
+                a.io.write_pending = true;
+                a.cancel = true;
+                a.broker.receive_max = vec![rm];
+                a.broker.ack_fail = true;
+                a.max_ops = if q { 7 } else { 9 };
+                a.max_conns = 2;
+                a.max_reqs = if q { 3 } else { 4 };
+                a.dev = 1;
+                v.push(a);
+            }
+            // local limit: Receive Maximum above / at the local window of 8
+            let mut b = Cfg::base("C06-receive-maximum-9-and-65535");
+            b.props = vec!["C06"];
+            b.ops = vec![OpK::Pub2, OpK::Pub1, OpK::Poll];
+            b.io = IoMenu::benign();
+            b.broker.receive_max = vec![Some(9), Some(65535), None];
+            b.broker.reorder_window = 1;
+            b.max_ops = if q { 14 } else { 22 };
+            b.max_conns = 1;
+            b.max_reqs = if q { 10 } else { 12 };
+            b.dev = 0;
+            v.push(b);
+            v
+        }
+        "C11" => {
+            let mut a = Cfg::base("C11-every-fault-then-every-call");
+            a.props = vec!["C11"];
+            a.ops = vec![
+                OpK::Pub0,
+                OpK::Pub1,
+                OpK::Pub2,
+                OpK::Sub,
+                OpK::Unsub,
+                OpK::Poll,
+                OpK::Drive,
+                OpK::Recv,
+                OpK::Disconnect,
+            ];
+            a.io = IoMenu::faults_only();
+            a.broker.disconnect = true;
+            a.broker.garbage = true;
+            a.broker.script = vec![inpub(1, 3)];
+            a.max_ops = if q { 5 } else { 6 };
+            a.max_conns = 1;
+            a.max_reqs = 4;
+            a.dev = 1;
+            a.drain = false;
+            // keep-alive timeout as the fault
+            let mut b = Cfg::base("C11-keepalive-timeout-then-every-call");
+            b.props = vec!["C11"];
+            b.keepalive = 10;
+            b.ops = a.ops.clone();
+            b.io = IoMenu::benign();
+            b.broker.mute_pingresp = true;
+            b.max_ops = if q { 6 } else { 7 };
+            b.max_conns = 1;
+            b.max_reqs = 2;
+            b.dev = 0;
+            b.drain = false;
+            vec![a, b]
+        }
+        "C12" => {
+            let mut a = Cfg::base("C12-after-any-failure-or-cancellation");
+            a.props = vec!["C12"];
+            a.ops = vec![OpK::Pub1, OpK::Pub2, OpK::Sub, OpK::Poll, OpK::Disconnect, OpK::DropConn, OpK::Forget, OpK::IntoInner];
+            a.io = IoMenu::full();
+            a.cancel = true;
+            a.broker.bad_handshake = true;
+            a.broker.garbage = true;
+            a.broker.disconnect = true;
+            a.broker.script = vec![inpub(2, 5)];
+            a.max_ops = if q { 4 } else { 5 };
+            a.max_conns = if q { 2 } else { 3 };
+            a.max_reqs = 2;
+            a.dev = if q { 2 } else { 3 };
+            // arena-filling retained payloads, tiny to roomy buffers
+            let mut v = vec![a];
+            for (tx, pay) in [(96usize, 80usize), (64, 40), (48, 30)] {
+                if q && tx != 96 {
+                    continue;
+                }
+                let mut b = Cfg::base(match tx {
+                    96 => "C12-arena-nearly-full-96",
+                    64 => "C12-arena-nearly-full-64",
+                    _ => "C12-arena-nearly-full-48",
+                });
+                b.props = vec!["C12"];
+                b.tx = tx;
+                b.payload_sizes = vec![pay, 2];
+                b.ops = vec![OpK::Pub1, OpK::Poll, OpK::DropConn];
+                b.io = IoMenu::faults_only();
+                b.max_ops = 5;
+                b.max_conns = 2;
+                b.max_reqs = 2;
+                b.dev = 1;
+                v.push(b);
+            }
+            v
+        }
+        "C16" => {
+            let mut a = Cfg::base("C16-progress-after-partials-cancels-faults");
+            a.props = vec!["C16"];
+            a.ops = vec![OpK::Pub1, OpK::Pub2, OpK::Sub, OpK::Unsub, OpK::Poll, OpK::Drive, OpK::DropConn];
+            a.io = IoMenu::full();
+            a.cancel = true;
+            a.broker.script = vec![inpub(1, 21), inpub(2, 22)];
+            a.broker.may_lose_session = true;
+            a.max_ops = if q { 5 } else { 6 };
+            a.max_conns = if q { 2 } else { 3 };
+            a.max_reqs = 3;
+            a.dev = if q { 1 } else { 2 };
+            let mut b = Cfg::base("C16-handshake-failures");
+            b.props = vec!["C16"];
+            b.ops = vec![OpK::Pub1, OpK::Pub2, OpK::Sub, OpK::Poll, OpK::DropConn];
+            b.io = IoMenu::faults_only();
+            b.cancel = true;
+            b.io.read_pending = true;
+            b.broker.bad_handshake = true;
+            b.broker.ack_fail = true;
+            b.max_ops = if q { 6 } else { 7 };
+            b.max_conns = 3;
+            b.max_reqs = 3;
+            b.dev = if q { 1 } else { 2 };
+            // robustness: write answering Ok(0)
+            let mut c = Cfg::base("C16-write-zero");
+            c.props = vec!["C16"];
+            c.ops = vec![OpK::Pub1, OpK::Pub0, OpK::Poll];
+            c.io = IoMenu::benign();
+            c.io.write_zero = true;
+            c.max_ops = 5;
+            c.max_conns = 2;
+            c.max_reqs = 2;
+            c.dev = 2;
+            vec![a, b, c]
+        }
+        "C18" => {
+            let mut a = Cfg::base("C18-status-after-every-step");
+            a.props = vec!["C18"];
+            a.ops = vec![OpK::Pub1, OpK::Pub2, OpK::Sub, OpK::Unsub, OpK::Poll, OpK::DropConn];
+            a.io = IoMenu::faults_only();
+            a.io.write_pending = true;
+            a.cancel = true;
+            a.broker.ack_fail = true;
+            a.broker.may_lose_session = true;
+            a.max_ops = if q { 7 } else { 9 };
+            a.max_conns = if q { 2 } else { 3 };
+            a.max_reqs = 3;
+            a.dev = if q { 1 } else { 2 };
+            vec![a]
+        }
         _ => vec![],
     }
 }
